@@ -62,6 +62,15 @@ def run_case(case):
         near = r.random() < 0.3
         if near:
             a = np.array([r.choice([3.0 * (1 - 2e-6), 3.0, 3.0 * (1 - 4e-6), 1.0]) for _ in range(int(np.prod(shape)))]).reshape(shape)
+        ninf = r.random() < 0.3
+        if ninf:
+            # legitimate -inf values (log(0) utilities, -inf continuation values) among the unmasked elements: not to be confused
+            # with the value masked elements are replaced by
+            flat = a.ravel().copy()
+            for j in range(flat.size):
+                if r.random() < 0.6:
+                    flat[j] = -np.inf
+            a = flat.reshape(shape)
         mk = r.choice(["none", "some", "some", "some", "all", "rowall"])
         mask = None
         if mk != "none":
@@ -72,7 +81,7 @@ def run_case(case):
                 mask[tuple(0 if d in axes else slice(None) for d in range(nd))] = mask[tuple(0 if d in axes else slice(None) for d in range(nd))]
                 idx = tuple(slice(None) if d in axes else 0 for d in range(nd))
                 mask[idx] = False
-        out["sig"] = f"argmax nd={nd} k={k} mask={mk} jit={jit} sorted={axes == sorted(axes)}"
+        out["sig"] = f"argmax nd={nd} k={k} mask={mk} jit={jit} sorted={axes == sorted(axes)} ninf={ninf}"
         f = (lambda x, w: argmax(x, axis=tuple(axes), where=w, initial=-jnp.inf)) if mask is not None else (lambda x, w: argmax(x, axis=tuple(axes)))
         if jit:
             f = jax.jit(f)
